@@ -33,6 +33,7 @@ type Verifier struct {
 	smtPrelude string
 	fns        map[string]*ssa.Function
 	allPkgs    map[string]*types.Package
+	guardLockFn map[string]string // heap base name of a guarded field -> sub-object function of its lock field
 }
 
 func NewVerifier(repo, specDir string) (*Verifier, error) {
@@ -78,6 +79,28 @@ func NewVerifier(repo, specDir string) (*Verifier, error) {
 			v.fns[v.contractKey(fn)] = fn
 		}
 	}
+	// lock discipline declarations: decl <pkg.Type.field> guarded_by <lockfield>
+	v.guardLockFn = map[string]string{}
+	declsByBase := map[string]string{}
+	for k, d := range v.C.Decls {
+		i := strings.LastIndex(k, ".")
+		if i < 0 {
+			continue
+		}
+		t := v.resolveType(k[:i], nil)
+		fs := strings.Fields(d)
+		if t == nil || len(fs) != 2 {
+			return nil, fmt.Errorf("bad decl %s %s", k, d)
+		}
+		base := fieldBase(t, k[i+1:])
+		declsByBase[base] = d
+		for _, suf := range []string{".arr", ".off", ".len", ".cap"} {
+			declsByBase[base+suf] = d
+			v.guardLockFn[base+suf] = "sub_" + structName(t) + "_" + fs[1]
+		}
+		v.guardLockFn[base] = "sub_" + structName(t) + "_" + fs[1]
+	}
+	v.C.Decls = declsByBase
 	// SMT prelude with spec functions
 	if b, err := os.ReadFile(filepath.Join(specDir, "prelude.smt2")); err == nil {
 		v.smtPrelude = string(b)
